@@ -190,6 +190,11 @@ func genC18(t *rapid.T) c18Case {
 		}
 	}
 	c.EndToEnd = rapid.IntRange(0, 3).Draw(t, "e2e") == 0
+	if !c.EndToEnd && c.FailAt == 0 && c.QuitAfter == 0 && rapid.IntRange(0, 3).Draw(t, "aboveOneSecond") == 0 {
+		// an interval above one second that is not a whole number of seconds, watched for two intervals
+		c.IntervalMs = rapid.IntRange(1001, 1999).Draw(t, "intervalAboveOneSecond")
+		c.RunFor = 2
+	}
 	if c.EndToEnd {
 		c.StreamClose = rapid.Bool().Draw(t, "streamClose")
 		c.TLS = rapid.Bool().Draw(t, "tls")
@@ -241,6 +246,17 @@ func runC18(c c18Case) vh.Result {
 	maxPings := int(end.Sub(start)/interval) + 1
 	if len(pings) > maxPings {
 		res.Fail("too-many-pings", "%s: %d keepalives in %v, an interval of %v allows at most %d", desc, len(pings), end.Sub(start), interval, maxPings)
+	}
+	// the loop was started after `start` was read and a ticker never fires early: the n-th keepalive cannot be
+	// attempted before n intervals have passed (monotonic clock on both sides)
+	for i, p := range pings {
+		if p.Sub(start) < time.Duration(i+1)*interval {
+			res.Fail("keepalive-before-its-interval", "%s: keepalive %d attempted %v after the loop was started, the interval is %v", desc, i+1, p.Sub(start), interval)
+			break
+		}
+	}
+	if c.IntervalMs > 1000 {
+		res.Label("interval-above-one-second")
 	}
 	switch {
 	case c.FailAt > 0:
@@ -669,7 +685,7 @@ func runC18E2E(c c18Case) vh.Result {
 
 var c18 = vh.Define(&vh.Def[c18Case]{
 	Property: "C18", Name: "keepalive",
-	Rule: "interval 2-40 ms x {k-th keepalive write fails, k in 1-10 | session ends after a generated fraction of the interval (1-100 tenths) | steady} x {bare keepalive loop on a stub Transport | real Client whose Transport is wrapped (Ping fails at k) against the scripted peer, the session ending by a cut of the connection or by </stream:stream> on a connection that stays open, over clear-text TCP, STARTTLS or WebSocket (ping frames; attempts counted in the wrapped Transport), in a third of the steady TCP cases after an earlier session of the same Client whose Disconnect is still in flight (the server never answers the stream end) and with the new session watched for 1.3 s, in half of the clear-text ping-failure cases the failing keepalive hangs until the connection has been cut, the loss reported and a new session set up, which must then survive it, in a quarter of the steady clear-text cases the application's PostConnectHook fails at a first Connect (no keepalive may follow) before the session under observation is set up, the application's Disconnected handler returning at once or after 8 intervals (at most one keepalive may be attempted while it runs)}; oracle: n keepalives never take less than (n-1) intervals (a ticker never fires early: sound upper bound on the rate) at least one within 100 intervals + 3 s, each is a single newline on the wire, after the failing keepalive Close is called exactly once, no further keepalive follows, the loop returns and (end to end) the loss is reported by one error callback and one Disconnected event, no keepalive starts later than max(3 intervals, 100 ms) after the session ended and the loop returns; non-trivial = a failure index or an end time was drawn, or the end-to-end variant",
+	Rule: "interval 2-40 ms (bare loop, steady: in a quarter of the cases 1001-1999 ms, watched for two intervals) x {k-th keepalive write fails, k in 1-10 | session ends after a generated fraction of the interval (1-100 tenths) | steady} x {bare keepalive loop on a stub Transport | real Client whose Transport is wrapped (Ping fails at k) against the scripted peer, the session ending by a cut of the connection or by </stream:stream> on a connection that stays open, over clear-text TCP, STARTTLS or WebSocket (ping frames; attempts counted in the wrapped Transport), in a third of the steady TCP cases after an earlier session of the same Client whose Disconnect is still in flight (the server never answers the stream end) and with the new session watched for 1.3 s, in half of the clear-text ping-failure cases the failing keepalive hangs until the connection has been cut, the loss reported and a new session set up, which must then survive it, in a quarter of the steady clear-text cases the application's PostConnectHook fails at a first Connect (no keepalive may follow) before the session under observation is set up, the application's Disconnected handler returning at once or after 8 intervals (at most one keepalive may be attempted while it runs)}; oracle: n keepalives never take less than (n-1) intervals (a ticker never fires early: sound upper bound on the rate), on the bare loop the n-th keepalive is never attempted earlier than n intervals after the loop was started, at least one within 100 intervals + 3 s, each is a single newline on the wire, after the failing keepalive Close is called exactly once, no further keepalive follows, the loop returns and (end to end) the loss is reported by one error callback and one Disconnected event, no keepalive starts later than max(3 intervals, 100 ms) after the session ended and the loop returns; non-trivial = a failure index or an end time was drawn, or the end-to-end variant",
 	Quick: 160, Thorough: 2400, Journal: true,
 	Gen: genC18, Run: runC18,
 })
